@@ -359,6 +359,22 @@ def native_holds(spec, obs, tree, scenario):
             if want is not None and path not in tree:
                 return False
         return True
+    if k == "step_leaves_tree_unchanged":
+        # a read-only call: the directory tree after step k equals the tree right before it (two native runs of
+        # prefixes of the scenario; temp names are random, so anything under cache/tmp/ is compared by count)
+        kk = spec["step"]
+        sc_a = dict(scenario, steps=scenario["steps"][:kk])
+        sc_b = dict(scenario, steps=scenario["steps"][:kk + 1])
+        sc_a.pop("shim", None)
+        sc_b.pop("shim", None)
+        _, ta = run_native(sc_a, scenario.get("flavour", "sync"))
+        _, tb = run_native(sc_b, scenario.get("flavour", "sync"))
+        if ta is None or tb is None:
+            return None
+
+        def norm(t):
+            return {("cache/tmp/*" if p_.startswith("cache/tmp/") else p_): v for p_, v in _tree_norm(t).items()}
+        return norm(ta) == norm(tb)
     if k == "tree_no_systmp":
         # nothing may sit in the process's system temporary directory ($ROOT/systmp natively)
         if tree is None:
